@@ -518,7 +518,7 @@ class Sym:
         if k == "index":
             return "%s[%s]" % (self.name(t[1]), self.arg_name(t[2]))
         if k == "var":
-            return "var"
+            return "var<%s>" % self.short_ty(self.an.body.locals[t[1]]["ty"])
         if k == "mut":
             return self.mut_name(t)
         if k == "aggr" and t[1].startswith("closure:"):
@@ -543,6 +543,11 @@ class Sym:
         if r is not None:
             return self.region_name(r)
         return show(t)
+
+    def short_ty(self, ty):
+        import re
+        s_ = pp.ty(ty)
+        return re.sub(r"(?:[A-Za-z_][A-Za-z_0-9]*::)+", "", s_)
 
     def mut_name(self, t):
         """canonical name of a local that is initialised and then mutated through &mut views:
